@@ -198,6 +198,9 @@ func c14Run(r *run.Runner, c c14Case, idx int) {
 		case "set", "mutate-after-set":
 			seq++
 			v := MakeValue(fmt.Sprintf("c%d.%d", idx, seq), op.Size, false)
+			if op.Size == 0 && seq%2 == 0 {
+				v = []byte{} // a truly empty value
+			}
 			buf := append([]byte(nil), v...)
 			if err := conn.Set(k, buf); err != nil {
 				viol("set-error", "key="+keyClass(k)+",err="+errClass(err), "Set on a legal key failed: "+err.Error(), opi)
